@@ -222,26 +222,57 @@ Proof. exact algo_quiescent_equal. Qed.
 Print Assumptions ALGO_quiescent_equal.
 
 (* ---- where the model can answer OutOfFragment ---------------------------------------------------------------- *)
-(* The theorems above are about runs on which the model answers ROk.  From the invariant the following parts of an
-   engine step ALWAYS answer: event intake (whatever is pending), and in a sync step everything up to SyncManager.sync
-   on the picked entry - SyncState.change with the provider calls of its path-filling loop, the pick, pre_sync
-   (get_latest of both sides or the finishing of a discarded entry).  So an OutOfFragment answer of a sync step is
-   an OutOfFragment answer of [sync_entry] in a refreshed world.  (That [sync_entry] never answers it on in-domain
-   runs is measured by the tie - 0 answers - not proved.) *)
+(* The theorems above are about runs on which the model answers ROk.  The model has 28 OutOfFragment codes plus the
+   error results of the SyncState operations (assertion failures, KeyError ...).  On in-domain runs under ANY schedule
+   all but seven are proved unreachable: an in-domain run either goes through or stops with a code of
+   [G_SYNC] = X_IRRELEVANT (translate() = None at the top of embrace_change), X_LEVEL + 3 (_get_parent_conflict found a
+   conflict), X_MISSING (handle_changed_is_missing), X_HASHDIFF_GONE (handle_hash_diff with the other side gone),
+   X_PEERS (check_disjoint_create found another entry on the translated path), X_DELETE_OTHER (delete_synced found another
+   entry on the path), X_CREATE_EXISTS (create(): the target path is occupied).  That these seven never fire on in-domain
+   runs is measured by the tie (0 answers on ~90 000 runs), not proved.  Proved unreachable in particular: every
+   SyncState assertion / KeyError / RecursionError, hash_conflict, path_conflict, the split guard of bbf04b7/0292e7f,
+   upload / rename / mkdir / download / delete errors, CONFLICT and IRRELEVANT entries, events for the sync root. *)
+Theorem ALGO_out_of_fragment_guards : forall t0 lg0 acts c,
+  lg0 <= t0 + 1 -> in_F1 (cfg_std 1) (history_of acts) = true ->
+  algo_run (world_init (cfg_std 1) t0 lg0) acts = OutOfFragment c -> In c G_SYNC.
+Proof. exact algo_out_of_fragment_guards. Qed.
+Print Assumptions ALGO_out_of_fragment_guards.
+
+(* one engine step, from any world satisfying the invariant *)
+Theorem ALGO_engine_step_guards : forall g w a c,
+  Inv g w -> NoTmp w -> algo_step w a = OutOfFragment c -> In c G_SYNC.
+Proof. exact engine_step_guards. Qed.
+Print Assumptions ALGO_engine_step_guards.
+
+(* event intake always answers, whatever is pending *)
 Theorem ALGO_intake_total : forall g w sd, Inv g w -> exists w', intake w sd = ROk w'.
 Proof. exact intake_total. Qed.
 Print Assumptions ALGO_intake_total.
 
+(* pre_sync always answers (get_latest of both sides, or the finishing of a discarded entry) *)
 Theorem ALGO_pre_sync_total : forall g w e en, Inv g w -> (2 <= e)%nat -> nth_error (ents (w_st w)) e = Some en ->
   exists r, pre_sync w e = ROk r.
 Proof. exact pre_sync_total. Qed.
 Print Assumptions ALGO_pre_sync_total.
 
+(* a sync step can only stop inside SyncManager.sync on the picked, refreshed entry: SyncState.change with the provider
+   calls of its path-filling loop, the pick and pre_sync always answer *)
 Theorem ALGO_sync_step_total_up_to_sync : forall g w order c,
   Inv g w -> NoTmp w -> sync_step w order = OutOfFragment c ->
-  exists w3 e en3, SCtx g w3 e en3 /\ e_ign en3 = INone /\ sync_entry w3 e = OutOfFragment c.
+  exists w3 e en3, SCtx g w3 e en3 /\ e_ign en3 = INone /\ notmp w3 e /\ maxchg en3 <= now (w_st w3) /\
+                   sync_entry w3 e = OutOfFragment c.
 Proof. exact sync_step_total_up_to_sync. Qed.
 Print Assumptions ALGO_sync_step_total_up_to_sync.
+
+(* the three guards at the top of SyncManager.sync never fire on F1 *)
+Theorem ALGO_sync_top_guards_false : forall g w e en, SCtx g w e en -> e_ign en = INone ->
+  split_guard (cfg_std 1) en false = false /\ split_guard (cfg_std 1) en true = false /\
+  hash_conflict en = false /\ path_conflict (cfg_std 1) en = false.
+Proof.
+  exact (fun g w e en SC Hi => conj (split_guard_false g w e en false SC Hi) (conj (split_guard_false g w e en true SC Hi)
+           (conj (hash_conflict_false g w e en SC Hi) (path_conflict_false g w e en SC Hi)))).
+Qed.
+Print Assumptions ALGO_sync_top_guards_false.
 
 (* ---- C03: the origin is untouched --------------------------------------------------------------------------- *)
 (* [algo_run_calls] = algo_run keeping the engine-issued provider calls of every step (the calls the tie compares with
